@@ -49,8 +49,8 @@ type cas struct {
 	e   *env
 	tag string
 
-	mu  sync.Mutex // the commit lock: everything that may change the committed state, and every read by an observer, runs under it
-	smu sync.Mutex
+	mu          sync.Mutex // the commit lock: everything that may change the committed state, and every read by an observer, runs under it
+	smu         sync.Mutex
 	states      []*state
 	ticketSeq   int
 	inflight    int
@@ -327,6 +327,9 @@ func (k *cas) committed(t *txRec, base *state) *state {
 		if t.Aborted != "" {
 			sig = fe + "/commit-after-failed-statement-applied"
 		}
+		if b := k.blame(o, v0.st); b != nil && b != t && b.Outcome != "committed" {
+			sig = fmt.Sprintf("%s/%s-tx-visible", feName[b.P.FE], outcomeKind(b)) // rows of another, never committed tx
+		}
 		k.c.Violation(sig, fmt.Sprintf("[%s] after the acknowledged COMMIT of %s a session reading through %s sees\n  %s\nexpected\n  %s\nprogram: %s\nobserved: %s",
 			k.tag, t.name(), via, o.text(), v0.st.text(), t.P.text(), obsText(t.Obs)), nil)
 		t.Skip = true
@@ -342,6 +345,7 @@ func (k *cas) committed(t *txRec, base *state) *state {
 		t.Reader = true // no effects: nothing was validated at commit, its reads are judged against its snapshot window
 	case !t.Skip:
 		k.c.Eval(1)
+		t.Skip = true
 		k.c.Violation(fe+"/committed-tx-statement-mismatch", fmt.Sprintf("[%s] %s was committed, but statement %d did not see the state at its commit position plus its own earlier changes\n  state before: %s\nprogram: %s\nobserved: %s",
 			k.tag, t.name(), where, base.text(), t.P.text(), obsText(t.Obs)), nil)
 	}
@@ -352,10 +356,18 @@ func (k *cas) committed(t *txRec, base *state) *state {
 }
 
 // reported checks the affected-row counts and generated keys the front-end reported against the model run that explains the tx.
-func (k *cas) reported(t *txRec, v *view, r []res) {
+func (k *cas) reported(t *txRec, v *view, r []res) { k.reportedDry(t, v, r, false) }
+
+// reportedDry: with dry set nothing is recorded; the number of disagreements is returned.
+func (k *cas) reportedDry(t *txRec, v *view, r []res, dry bool) (bad int) {
 	fe := feName[t.P.FE]
 	for i := range t.Obs {
 		o := &t.Obs[i]
+		if o.St.K == kRollTo {
+			// known open defect (ROLLBACK TO SAVEPOINT keeps the writes): when no read tells the two readings apart the
+			// model run may not be the one the engine followed, so counts after it are not judged
+			break
+		}
 		if i >= len(r) || o.Err != "" || !o.St.K.isDML() {
 			continue
 		}
@@ -368,12 +380,20 @@ func (k *cas) reported(t *txRec, v *view, r []res) {
 			f := strings.Fields(o.Tag)
 			x, err := strconv.Atoi(f[len(f)-1])
 			if err != nil || !strings.EqualFold(f[0], verb) {
-				k.c.Count("pg_tag_unparsed", 1)
+				if !dry {
+					k.c.Count("pg_tag_unparsed", 1)
+				}
 				continue
 			}
 			n = x
 		}
 		if n < 0 {
+			continue
+		}
+		if dry {
+			if n != r[i].N {
+				bad++
+			}
 			continue
 		}
 		k.c.Eval(1)
@@ -382,15 +402,22 @@ func (k *cas) reported(t *txRec, v *view, r []res) {
 			if t.P.FE == fePG {
 				sig = "pgwire/command-tag-affected-rows-mismatch/" + verb
 			}
-			k.c.Violation(sig, fmt.Sprintf("[%s] %s: %q changed %d row(s) but the front-end reported %d (%q, sent %s)", k.tag, t.name(), o.St.text(), r[i].N, n, o.Tag, o.Via), nil)
+			k.c.Violation(sig, fmt.Sprintf("[%s] %s: %q changed %d row(s) but the front-end reported %d (%q, sent %s)\nprogram: %s\nobserved: %s", k.tag, t.name(), o.St.text(), r[i].N, n, o.Tag, o.Via, t.P.text(), obsText(t.Obs)), nil)
 		}
 	}
-	if t.Reported >= 0 && !t.P.Auto {
+	if t.Reported >= 0 && !t.P.Auto && !t.usesRollTo() {
+		if dry {
+			if t.Reported != v.total {
+				bad++
+			}
+			return
+		}
 		k.c.Eval(1)
 		if t.Reported != v.total {
 			k.c.Violation(fe+"/commit-updated-rows-mismatch", fmt.Sprintf("[%s] Commit of %s reported UpdatedRows=%d, the statements changed %d rows\nprogram: %s", k.tag, t.name(), t.Reported, v.total, t.P.text()), nil)
 		}
 	}
+	return
 }
 
 // ---- window oracle for transactions that were not committed (or had no effects) ----
@@ -424,28 +451,34 @@ func (k *cas) judgeReader(t *txRec) {
 		keeps = append(keeps, true)
 	}
 	single := false
-	for ia := lo; ia <= ha; ia++ {
-		for ib := lo; ib <= hb; ib++ {
-			base := &state{A: k.states[ia].A, B: k.states[ib].B}
-			for _, keep := range keeps {
-				v, r, ok, _ := replay(base, t.P.RO, keep, t.Obs)
-				if !ok || t.NoEffect && v.st.text() != base.text() {
-					continue
-				}
-				if keep {
-					// is the correct reading refuted? only then it is the known defect
-					if _, _, ok0, _ := replay(base, t.P.RO, false, t.Obs); !ok0 {
-						k.c.Violation("sqltx/rollback-to-savepoint-keeps-writes", fmt.Sprintf("[%s] via %s: inside %s the statements after ROLLBACK TO SAVEPOINT still saw the writes made after the savepoint: %s\nobserved: %s", k.tag, fe, t.name(), t.P.text(), obsText(t.Obs)), nil)
+	// several states may explain the reads; the reported counts are judged against one that explains them too, if any
+	for pass := 0; pass < 2; pass++ {
+		for ia := lo; ia <= ha; ia++ {
+			for ib := lo; ib <= hb; ib++ {
+				base := &state{A: k.states[ia].A, B: k.states[ib].B}
+				for _, keep := range keeps {
+					v, r, ok, _ := replay(base, t.P.RO, keep, t.Obs)
+					if !ok || t.NoEffect && v.st.text() != base.text() {
+						continue
 					}
+					if pass == 0 && k.reportedDry(t, v, r, true) > 0 {
+						continue
+					}
+					if keep {
+						// is the correct reading refuted? only then it is the known defect
+						if _, _, ok0, _ := replay(base, t.P.RO, false, t.Obs); !ok0 {
+							k.c.Violation("sqltx/rollback-to-savepoint-keeps-writes", fmt.Sprintf("[%s] via %s: inside %s the statements after ROLLBACK TO SAVEPOINT still saw the writes made after the savepoint: %s\nobserved: %s", k.tag, fe, t.name(), t.P.text(), obsText(t.Obs)), nil)
+						}
+					}
+					if ia == ib {
+						single = true
+					}
+					k.reported(t, v, r)
+					if !single {
+						k.c.Count("reader_explained_only_per_table", 1)
+					}
+					return
 				}
-				if ia == ib {
-					single = true
-				}
-				k.reported(t, v, r)
-				if !single {
-					k.c.Count("reader_explained_only_per_table", 1)
-				}
-				return
 			}
 		}
 	}
